@@ -93,6 +93,11 @@ C15 = [
 ]
 
 C15.append(
+    ('pool-entry-deleted-after-destructor', LOCK,
+     "                    del self._refs[key]\n                    if self._destructor is not None:\n                        self._destructor(obj)",
+     "                    if self._destructor is not None:\n                        self._destructor(obj)\n                    del self._refs[key]",
+     None))
+C15.append(
     ('both-recursive-checks-removed', [
         (LOCK,
          "                if not reentrant and self._acquired_by[thread_id]:\n                    raise RecursiveDeadlockError()\n                self._acquired_by[thread_id] += 1",
